@@ -439,21 +439,76 @@ def r4_species(ctx):
         ok = len(loops) == 1 and norm(loops[0].resolved) in (f"{ROW}.A.keys()", f"{ROW}.A") and \
             f"{rc}.append(self.get_isotope({pa[1]}, int({loops[0].extra}@loop1), {pa[2]}))" in body
         ctx.form(ok, EL, "Element.get_natural", "every tabulated isotope enters the mean", detail=body[:2])
-    # suffix ladder
+    # suffix ladder: decision table over (element spelling, which suffix alternative matched, bare sign) on resolved paths
+    from ..flowexpr import consistent
     fn = ctx.fn(EL, "Element.__init__")
-    s = norm(fn).replace("\n", " ")
-    ladder = [("iso1 and ion1", "self.isotope, self.ionisation = (int(iso1), int(ion1))"),
-              ("iso2", "self.isotope, self.ionisation = (int(iso2), 0)"),
-              ("ion3", "self.isotope, self.ionisation = (None, int(ion3))")]
-    for test, act in ladder:
-        ctx.form(f"if {test}:" in s and act in s, EL, "Element.__init__", f"suffix form `{test}` sets {act.split(' = ')[1]}")
-    ctx.form("self.isotope, self.ionisation = (None, 0)" in s, EL, "Element.__init__", "no suffix: unspecified isotope, neutral")
+    try:
+        ips = paths(fn, max_paths=20000)
+    except AnalysisError as e:
+        ctx.unrecognised(EL, "Element.__init__", "suffix ladder", str(e))
+        return
+    gsrc = sorted({norm(c) for q in ips for e in q.events if e.resolved is not None for c in ast.walk(e.resolved)
+                   if isinstance(c, ast.Call) and isinstance(c.func, ast.Attribute) and c.func.attr == "groups" and "[a-zA-Z]" in norm(c)})
+    if len(gsrc) != 1:
+        ctx.unrecognised(EL, "Element.__init__", "suffix ladder", "element pattern match not identified")
+        return
+    G = gsrc[0]
+    Mtxt = G[:-len(".groups()")]
+
+    def table(kind, form, sign):
+        present = {"iso+ion": (True, True, False, False), "iso": (False, False, True, False), "ion": (False, False, False, True), "none": (False, False, False, False)}[form]
+
+        def atom(e):
+            k = norm(e)
+            if k == Mtxt:
+                return True
+            if isinstance(e, ast.Call) and dotted_name(e.func) == "re.match":
+                return False           # the nucleon pattern does not match an element symbol
+            for i, p_ in zip((2, 3, 4, 5), present):
+                if k == f"{G}[{i}]":
+                    return p_
+                for sg in ("-", "+"):
+                    if k == f"{G}[{i}] == '{sg}'":
+                        return p_ and sign == sg
+            if k == f"{G}[0] == 'D'":
+                return kind == "D"
+            if k == f"{G}[0] == 'T'":
+                return kind == "T"
+            if k in ("self.isotope", "self.natural"):
+                return True
+            return None
+        cs, unk = consistent(ips, atom)
+        iso = sorted({norm(e.resolved) for q in cs for e in q.events if e.kind == "store" and e.extra == "self.isotope"} - {"0"})
+        ion = sorted({norm(e.resolved) for q in cs for e in q.events if e.kind == "store" and e.extra == "self.ionisation"} - {"0"} | (
+            {"0"} if any(e.kind == "store" and e.extra == "self.ionisation" and norm(e.resolved) == "0" for q in cs for e in q.events) else set()))
+        el = sorted({norm(e.resolved) for q in cs for e in q.events if e.kind == "store" and e.extra == "self.element"})
+        return cs, unk, iso, ion, el
+    want = {
+        ("iso+ion", None): ([f"int({G}[2])"], [f"int({G}[3])"]),
+        ("iso+ion", "-"): ([f"int({G}[2])"], ["int('-1')"]),
+        ("iso+ion", "+"): ([f"int({G}[2])"], ["int('1')"]),
+        ("iso", None): ([f"int({G}[4])"], ["0"]),
+        ("ion", None): (["None"], [f"int({G}[5])"]),
+        ("ion", "-"): (["None"], ["int('-1')"]),
+        ("none", None): (["None"], ["0"]),
+    }
+    for (form, sign), (wi, wn) in want.items():
+        cs, unk, iso, ion, el = table("other", form, sign)
+        # the first store on the path is the ladder's (later stores come from the isotope lookup)
+        first = [(next((norm(e.resolved) for e in q.events if e.kind == "store" and e.extra == "self.isotope"), None),
+                  next((norm(e.resolved) for e in q.events if e.kind == "store" and e.extra == "self.ionisation"), None)) for q in cs]
+        ok = bool(cs) and not unk and all(f == (wi[0], wn[0]) for f in first)
+        ctx.form(ok, EL, "Element.__init__", f"suffix form {form}{' with a bare sign ' + sign if sign else ''} sets (isotope, charge) = ({wi[0]}, {wn[0]})".replace(G, "groups"),
+                 detail=sorted(set(first))[:2] or sorted(set(unk))[:2])
+    for kind, a in (("D", 2), ("T", 3)):
+        cs, unk, iso, ion, el = table(kind, "none", None)
+        first = [next((norm(e.resolved) for e in q.events if e.kind == "store" and e.extra == "self.isotope"), None) for q in cs]
+        ctx.form(bool(cs) and not unk and el == ["'H'"] and all(f == f"int({a})" for f in first), EL, "Element.__init__", f"{kind} is hydrogen {a}", detail=[el, sorted(set(first))])
     sel = [n for n in ast.walk(fn) if isinstance(n, ast.If) and norm(n.test) == "self.isotope"]
     ok = len(sel) == 1 and "self.get_isotope(" in norm(sel[0].body[0]) and len(sel[0].orelse) == 1 and isinstance(sel[0].orelse[0], ast.If) \
         and norm(sel[0].orelse[0].test) == "self.natural" and "self.get_natural(" in norm(sel[0].orelse[0].body[0]) \
         and "self.get_abundant(" in norm(sel[0].orelse[0].orelse[0])
     ctx.check(ok, EL, "Element.__init__", "explicit isotope > natural mean > most abundant isotope", detail=None)
-    ctx.form("'H', True, 2, ion1, 2, None" in s and "'H', True, 3, ion1, 3, None" in s, EL, "Element.__init__", "D and T are hydrogen 2 and 3")
 
 
 def r5_group_indices(ctx):
